@@ -87,15 +87,16 @@ Theorem table_updates2_roundtrip f t :
   wf_tables wf_ru2 t = true -> dec_tables (dec_ru2 (5 + f)) (enc_tables (enc_ru2 vu) t) = Ok t.
 Proof. apply tables_roundtrip; [apply ru2_roundtrip|intros a; apply fields_obj_not_null]. Qed.
 
-Lemma f_int_rt z : f_int (int_field z) = Ok z.
-Proof. unfold int_field. destruct (Z.eqb_spec z 0) as [->|_]; reflexivity. Qed.
+Lemma f_int_rt z : int64_ok z = true -> f_int (int_field z) = Ok z.
+Proof. intros H. unfold int_field. destruct (Z.eqb_spec z 0) as [->|_]; [reflexivity|]. cbn. rewrite H. reflexivity. Qed.
 
 Theorem result_roundtrip f r : wf_result r = true -> dec_result (5 + f) (enc_result vu r) = Ok r.
 Proof.
-  destruct r as [c e d u rows]. unfold wf_result. cbn [rs_rows]. intros H.
+  destruct r as [c e d u rows]. unfold wf_result. cbn [rs_rows rs_count]. intros H.
+  apply andb_prop in H as [Hc H].
   unfold enc_result, fields_obj, dec_result. rewrite !(obj_get_fields _ _ (result_keys_nodup _)).
   cbn [enc_result_fields assoc N.eqb Pos.eqb s_count s_error s_details s_uuid s_rows rs_count rs_error rs_details rs_uuid rs_rows].
-  rewrite f_int_rt. cbn [rbind]. rewrite !f_string_str. cbn [rbind].
+  rewrite (f_int_rt c Hc). cbn [rbind]. rewrite !f_string_str. cbn [rbind].
   unfold f_uuid. rewrite (uuid_roundtrip vu u). cbn [rbind].
   rewrite (f_list_roundtrip (enc_row vu) (dec_row (5 + f)) rows (rows_rt vu f rows H)). reflexivity.
 Qed.
@@ -218,7 +219,7 @@ Qed.
 Theorem dec_result_never_panics fuel v : is_panic (dec_result fuel v) = false.
 Proof.
   destruct v; try reflexivity. cbn [dec_result].
-  apply rbind_np'; [destruct (obj_get l s_count) as [[| |? []| | | | | |]|]; reflexivity|intros].
+  apply rbind_np'; [destruct (obj_get l s_count) as [[| |n []| | | | | |]|]; try reflexivity; cbn; destruct (int64_ok n); reflexivity|intros].
   apply rbind_np'; [apply f_string_np|intros]. apply rbind_np'; [apply f_string_np|intros].
   apply rbind_np'; [|intros].
   { unfold f_uuid. destruct (obj_get l s_uuid); [|reflexivity].
